@@ -41,10 +41,10 @@ def run(ctx):
         r5(ctx, F)
         r6(ctx, F)
         r8(ctx, F)
-    r9(ctx)
+    ctx.attempt(r9, ctx)
     entries = ['protocol::FrameHeader::decode', 'protocol::FrameHeader::read_from', 'protocol::Message::decode',
                'protocol::Codec::read_message', 'run_delta', 'run_patch']
-    panics.run_entries(ctx, 'C20.R7', entries, 'no undischarged crate-local panic reachable from the decoders / copia delta|patch; asserting constructors get validated values')
+    ctx.attempt(panics.run_entries, ctx, 'C20.R7', entries, 'no undischarged crate-local panic reachable from the decoders / copia delta|patch; asserting constructors get validated values')
 
 
     # every asserting block-size constructor called from the CLI crate gets a validated value
